@@ -953,8 +953,7 @@ func ruleTreeSearchCost(c *Ctx, r *R) {
 			instrs(fn, func(b *ssa.BasicBlock, i int, in ssa.Instruction) {
 				if phi, ok := in.(*ssa.Phi); ok {
 					for _, e := range phi.Edges {
-						ep := path(e)
-						if strings.Contains(ep, ".children[") && strings.Contains(ep, "searchNode") {
+						if isChildAtSearchResult(e, call) {
 							desc = true
 						}
 					}
@@ -969,8 +968,7 @@ func ruleTreeSearchCost(c *Ctx, r *R) {
 						return
 					}
 					for _, a := range rc.Call.Args {
-						ap := path(a)
-						if strings.Contains(ap, ".children[") && strings.Contains(ap, "searchNode") {
+						if isChildAtSearchResult(a, call) {
 							good = true
 						}
 					}
@@ -979,7 +977,23 @@ func ruleTreeSearchCost(c *Ctx, r *R) {
 		}
 		r.ok(good, name+"|one-search-per-level", fn.Pos(), "a lookup must call searchNode once per level and descend into children[idx] of that result")
 	}
-	r.ok(nSites >= 4, "tree|search-sites", token.NoPos, "expected the lookups (Get/Contains or their shared helper, Put, Delete, cursor.find) to go through searchNode; found "+itoa(nSites)+" callers")
+	// the lookups go through searchNode - directly, or through a descent helper they share (t.descend(k))
+	nReach := 0
+	for _, an := range []string{"btree.Get", "btree.Contains", "btree.Put", "btree.Delete", "cursor.find"} {
+		f := c.fn(treeRel + "." + an)
+		if f == nil {
+			continue
+		}
+		for _, di := range deepInstrs(f, 2) {
+			if call, ok := di.in.(*ssa.Call); ok {
+				if cal := staticCallee(&call.Call); cal != nil && fname(cal) == "searchNode" {
+					nReach++
+					break
+				}
+			}
+		}
+	}
+	r.ok(nReach >= 4 && nSites >= 1, "tree|search-sites", token.NoPos, "expected the lookups (Get/Contains or their shared helper, Put, Delete, cursor.find) to go through searchNode; found "+itoa(nReach)+" that do")
 	// the public lookups reach searchNode
 	for _, n := range []string{"btree.Get", "btree.Contains"} {
 		f := c.fn(treeRel + "." + n)
@@ -1478,3 +1492,39 @@ var _ = late(func() {
 			}})
 	}
 })
+
+
+// isChildAtSearchResult: v is X.children[idx] with idx the position the given search call returned.
+func isChildAtSearchResult(v ssa.Value, search *ssa.Call) bool {
+	ld, ok := resolveVal(v).(*ssa.UnOp)
+	if !ok || ld.Op != token.MUL {
+		return false
+	}
+	ia, ok := ld.X.(*ssa.IndexAddr)
+	if !ok {
+		return false
+	}
+	if _, arr, ok := nodeArray(ia.X); !ok || arr != "children" {
+		return false
+	}
+	var isPos func(x ssa.Value, d int) bool
+	isPos = func(x ssa.Value, d int) bool {
+		x = stripConvs(resolveVal(x))
+		switch y := x.(type) {
+		case *ssa.Extract:
+			return y.Tuple == ssa.Value(search) && y.Index == 0
+		case *ssa.Phi:
+			if d > 3 {
+				return false
+			}
+			for _, e := range y.Edges {
+				if e != ssa.Value(y) && !isPos(e, d+1) {
+					return false
+				}
+			}
+			return len(y.Edges) > 0
+		}
+		return false
+	}
+	return isPos(ia.Index, 0)
+}
